@@ -222,6 +222,82 @@ pub fn run(ctx: &Ctx) {
             other => ctx.fail(&id, "mapped bytecode == parsed operation list for programs with more than 255 / 65535 operations or bytes", format!("{name}: {:?}", other)),
         }
     }
+    // a Push straddling (or touching) every plausible buffer boundary, total lengths that are exact multiples of such sizes, and the iterator
+    // protocol of ops() (skip / nth / step_by followed by next) on the same mappings
+    let mut shapes: Vec<(String, Vec<asm::Op>)> = vec![];
+    for b in [1024usize, 4096, 8192, 16_384, 65_536, 131_072] {
+        for d in 0..=9usize {
+            // Push opcode at byte offset b - d
+            let mut v = vec![asm::Op::from(S::Pop); b - d];
+            v.push(p(0x0102030405060708 + d as i64));
+            v.extend(vec![asm::Op::from(S::Dup); 3]);
+            shapes.push((format!("push-at/{b}/{d}"), v));
+        }
+        for total in [b, 2 * b, 3 * b] {
+            // exactly `total` bytes: pops, one push in the middle, pops
+            let mut v = vec![asm::Op::from(S::Pop); total / 2 - 9];
+            v.push(p(-3));
+            v.extend(vec![asm::Op::from(S::Dup); total - total / 2]);
+            shapes.push((format!("total/{total}"), v));
+            // pushes only (total / 9 of them) padded with pops to the exact length
+            let mut v: Vec<asm::Op> = (0..total / 9).map(|i| p(i as i64 * 0x0101)).collect();
+            v.extend(vec![asm::Op::from(S::Pop); total % 9]);
+            shapes.push((format!("total-pushes/{total}"), v));
+        }
+    }
+    shapes.push(("small".into(), vec![p(1), S::Pop.into(), p(2), p(3), Alu::Add.into(), S::Dup.into(), p(-1)]));
+    for (name, ops) in &shapes {
+        let id = format!("sizes/{name}");
+        if !ctx.want(&id) {
+            continue;
+        }
+        let r = std::panic::catch_unwind(|| -> Option<String> {
+            let bytes: Vec<u8> = asm::to_bytes(ops.iter().copied()).collect();
+            let n = ops.len();
+            let b = match BytecodeMapped::<asm::Op, &[u8]>::try_from(&bytes[..]) { Ok(b) => b, Err(e) => return Some(format!("mapping a valid program of {} bytes failed: {e}", bytes.len())) };
+            let o = match BytecodeMapped::<asm::Op, Vec<u8>>::try_from(bytes.clone()) { Ok(o) => o, Err(e) => return Some(format!("mapping (owned) a valid program of {} bytes failed: {e}", bytes.len())) };
+            if b.ops().collect::<Vec<_>>() != *ops || o.ops().collect::<Vec<_>>() != *ops {
+                return Some("ops() differ from the operation list".into());
+            }
+            let rebuilt: BytecodeMapped<asm::Op, Vec<u8>> = ops.iter().copied().collect();
+            if rebuilt.bytecode() != &bytes[..] {
+                return Some(format!("collect(): bytecode() has {} bytes, to_bytes(ops) has {}", rebuilt.bytecode().len(), bytes.len()));
+            }
+            if rebuilt.op_indices() != b.op_indices() || rebuilt.ops().collect::<Vec<_>>() != *ops {
+                return Some("collect(): indices / ops() differ".into());
+            }
+            for i in (0..n + 2).step_by(1 + n / 300).chain(n.saturating_sub(12)..n + 2) {
+                if b.op(i) != ops.get(i).copied() || rebuilt.op(i) != ops.get(i).copied() || o.op(i) != ops.get(i).copied() {
+                    return Some(format!("op({i}) differs from list.get({i})"));
+                }
+            }
+            // iterator protocol
+            for k in [0usize, 1, 2, 5, n / 2, n - 1, n, n + 1] {
+                let want: Vec<asm::Op> = ops.iter().copied().skip(k).take(6).collect();
+                if b.ops().skip(k).take(6).collect::<Vec<_>>() != want || o.ops().skip(k).take(6).collect::<Vec<_>>() != want {
+                    return Some(format!("ops().skip({k}) differs from the list"));
+                }
+                let mut it = b.ops();
+                let mut lt = ops.iter().copied();
+                if it.nth(k) != lt.nth(k) || it.next() != lt.next() || it.nth(1) != lt.nth(1) || it.next() != lt.next() {
+                    return Some(format!("ops(): nth({k}) followed by next / nth(1) / next differs from the list"));
+                }
+            }
+            if b.ops().step_by(7).take(50).collect::<Vec<_>>() != ops.iter().copied().step_by(7).take(50).collect::<Vec<_>>() || b.ops().count() != n || b.ops().last() != ops.last().copied() {
+                return Some("ops(): step_by / count / last differ from the list".into());
+            }
+            let (lo, hi) = b.ops().size_hint();
+            if lo > n || hi.map_or(false, |h| h < n) {
+                return Some(format!("ops().size_hint() = ({lo}, {:?}) excludes the real length {n}", hi));
+            }
+            None
+        });
+        match r {
+            Err(_) => ctx.fail(&id, "mapping / random access never panics and agrees with parsing", format!("PANIC: program shape {name}")),
+            Ok(Some(d)) => ctx.fail(&id, "mapped bytecode == parsed operation list whatever the size and alignment of the program (mapping, rebuilding from ops, random access, iteration)", format!("shape {name}: {d}")),
+            Ok(None) => ctx.pass(),
+        }
+    }
     // a mapping that is extended operation by operation after it was built (push_op) must stay equivalent to the list
     for (pi, prefix) in [vec![], vec![asm::Op::from(asm::Access::ThisAddress)], vec![asm::Access::ThisAddress.into(), S::Pop.into()], vec![p(3), S::Pop.into()]].into_iter().enumerate() {
         for (ti, tail) in [vec![p(0x0202020202020202), S::Pop.into(), p(1)], vec![S::Dup.into(), p(-1), Alu::Add.into()], vec![p(0x6262626262626262u64 as i64)]].into_iter().enumerate() {
